@@ -35,7 +35,7 @@ AUDITED = {
     "read_to_buffer|call:BytesMut::resize": (
         1, "doubling of an in-memory buffer (allocation failure is out of scope)"),
     "Connection::receive|call:BytesMut::split_off": (
-        1, "split_off(total_received) with total_received <= recv_buf.len() (invariant of read_to_buffer)"),
+        1, "split_off(total_received) with total_received <= recv_buf.len(): invariant of read_to_buffer, and re-established on every exit after the split (C09.restore; it was not before fix 78ca7dc)"),
     "Connection::receive|call:BytesMut::resize": (
         1, "restores the length the buffer had at the start of the iteration"),
 }
@@ -92,6 +92,35 @@ def inventory_rule(rep, prog, cfg):
             rep.fail("C09.inventory", "%s#%d" % (inst, seen_n[k]) if seen_n[k] > 1 else inst, s.where,
                      "unaudited panic-capable construct `%s` in %s, reachable from connect/receive with peer-controlled data" % (s.kind, s.fn))
     rep.floor("C09.inventory", cfg + "/sites", len(sites), 10)
+
+
+def restore_rule(rep, prog, cfg):
+    """Pairing rule for the blocking flavour's buffer bookkeeping: receive() splits the unread tail off the receive buffer
+    (`split_off(total_received)`) before parsing and joins it back (`unsplit`) afterwards.  Every path from the split to a
+    return must pass the join: an early return in between (e.g. `?` on a parse error) leaves the connection with a short
+    buffer and a stale count, and the next receive() panics in split_off."""
+    from .C02 import conn_bodies
+    from ..common import ref_field_of_local
+    rule = "C09.restore"
+    b = conn_bodies(prog).get("blocking/receive")
+    if b is None:
+        rep.fail(rule + ".anchor", cfg, "connection.rs", "blocking receive body not found")
+        return
+    g = Cfg(b)
+    splits = [(bb, t) for bb, t in b.calls() if "bytes::bytes_mut::BytesMut::split_off" in callee_names(t) and t["args"]]
+    if not splits:
+        rep.ok(rule, cfg + "/no split-off bookkeeping in blocking receive", b.loc(b.span))
+        return
+    for sbb, st in splits:
+        f = ref_field_of_local(b, op_local(st["args"][0]))
+        joins = {bb for bb, t in b.calls() if "bytes::bytes_mut::BytesMut::unsplit" in callee_names(t) and t["args"]
+                 and ref_field_of_local(b, op_local(t["args"][0])) == f}
+        free = reach(g.succs, [st["target"]] if st.get("target") is not None else [], avoid=joins)
+        leaks = sorted(x for x in free if b.blocks[x]["t"]["k"] == "return")
+        rep.check(bool(joins) and not leaks, rule, cfg + "/blocking receive restores the buffer on every exit", b.loc(b.blocks[sbb]["ts"]),
+                  "Connection::receive can return between split_off and unsplit of `%s` (%d such exit(s), e.g. the `?` on a parse error): the "
+                  "buffer stays short while the received count is stale, and the next receive() panics in split_off" % (f, len(leaks)),
+                  detail={"field": f, "joins": len(joins)})
 
 
 def numbers_rule(rep, prog, cfg):
@@ -295,6 +324,7 @@ def run(rep, progs, tier):
         "0-byte result leaves it; the builder's loop consumes input every turn; the binary alternative "
         "commits with nom::cut.")
     rep.rule("C09.inventory", "no unaudited panic-capable construct reachable from connect/receive in the protocol crate")
+    rep.rule("C09.restore", "blocking receive: every path from split_off to a return passes unsplit (buffer bookkeeping restored on every exit)")
     rep.rule("C09.no-manual-numbers", "no integer arithmetic in parser.rs; numbers through str::parse")
     rep.rule("C09.invalid", "non-incomplete parse error => Err(InvalidMessage), never retried")
     rep.rule("C09.read-loop", "every loop of connect/receive exits on a 0-byte read; builder loop consumes")
@@ -305,6 +335,7 @@ def run(rep, progs, tier):
     for cfg, prog in progs.items():
         READS.bind(prog)
         inventory_rule(rep, prog, cfg)
+        restore_rule(rep, prog, cfg)
         numbers_rule(rep, prog, cfg)
         invalid_rule(rep, prog, cfg)
         read_loop_rule(rep, prog, cfg)
